@@ -16,7 +16,7 @@ RULE = ('round trip: molecule spec x format spec drawn from subsets of {a, A, m,
         'atom-wise under the written order incl. stereo by translated signs. injectivity: (1) exhaustive labelled graphs '
         '<= 5 atoms (6 thorough) over C/N/O, charges, bond orders 1-3: canonical string -> brute-force isomorphism class '
         'must be a function; (2) all 2^k label assignments (k <= 5) of sampled molecules: string -> stereo signature under '
-        'the constitution automorphism group must be a function. non-trivial = text has ring closure, branch, bracket atom '
+        'also: str() read after smiles_atoms_order must equal str() of a fresh object. the constitution automorphism group must be a function. non-trivial = text has ring closure, branch, bracket atom '
         'or stereo mark; distinct by written text / canonical key')
 ASSUMPTIONS = ['atom-wise comparison uses the known written order, no canonicaliser',
                'stereo signs are read through _translate_*_sign on both sides (parity-consistency checked in C12)',
